@@ -158,31 +158,33 @@ static std::string run_rns(const std::string& hist, const IV& P, const IV& R, co
     IV O = other_primes(same ? n : n + 2);
     Domains OD(O.size()); Elements OE(O.size());
     for (size_t i = 0; i < O.size(); ++i) { OD[i] = Dom(O[i]); OD[i].init(OE[i], Integer(1)); }
-    // constructor / setPrimes arguments: separate arrays that are overwritten (with the OTHER moduli) right after the call
+    // constructor / setPrimes arguments: separate arrays (element-wise copies of D / OD: a domain object such as Modular<Log16>
+    // picks its own generator, so elements are only exchanged between COPIES of one domain object) that are overwritten with
+    // other domains and freed right after the call
     struct Arg {
-        static Domains* make(const IV& Q) { Domains* a = new Domains(Q.size()); for (size_t i = 0; i < Q.size(); ++i) (*a)[i] = Dom(Q[i]); return a; }
+        static Domains* make(const Domains& Q) { Domains* a = new Domains(Q.size()); for (size_t i = 0; i < Q.size(); ++i) (*a)[i] = Q[i]; return a; }
         static void scribble(Domains* a) { for (size_t i = 0; i < a->size(); ++i) (*a)[i] = Dom(Integer(i % 2 ? 5 : 3)); delete a; }
     };
     struct Mk {
-        static RNS* mk(const IV& Q) { Domains* a = Arg::make(Q); RNS* S = new RNS(*a); Arg::scribble(a); return S; }
-        static void set(RNS* S, const IV& Q) { Domains* a = Arg::make(Q); S->setPrimes(*a); Arg::scribble(a); }
+        static RNS* mk(const Domains& Q) { Domains* a = Arg::make(Q); RNS* S = new RNS(*a); Arg::scribble(a); return S; }
+        static void set(RNS* S, const Domains& Q) { Domains* a = Arg::make(Q); S->setPrimes(*a); Arg::scribble(a); }
     };
     RNS* S = 0; RNS* aux = 0; RNS* aux2 = 0; Integer dump;
-    if (hist == "fresh") S = Mk::mk(P);
-    else if (hist == "reuse") { S = Mk::mk(P); S->RnsToRing(dump, Ones); }
-    else if (hist == "copycold") { aux = Mk::mk(P); S = new RNS(*aux); }
-    else if (hist == "copywarm") { aux = Mk::mk(P); aux->RnsToRing(dump, Ones); S = new RNS(*aux); }
-    else if (hist == "copy2") { aux = Mk::mk(P); aux->RnsToRing(dump, Ones); aux2 = new RNS(*aux); S = new RNS(*aux2); }
+    if (hist == "fresh") S = Mk::mk(D);
+    else if (hist == "reuse") { S = Mk::mk(D); S->RnsToRing(dump, Ones); }
+    else if (hist == "copycold") { aux = Mk::mk(D); S = new RNS(*aux); }
+    else if (hist == "copywarm") { aux = Mk::mk(D); aux->RnsToRing(dump, Ones); S = new RNS(*aux); }
+    else if (hist == "copy2") { aux = Mk::mk(D); aux->RnsToRing(dump, Ones); aux2 = new RNS(*aux); S = new RNS(*aux2); }
     else if (hist == "copymod") {      // the source stays alive, gets other primes and is used, after the copy was taken
-        aux = Mk::mk(P); aux->RnsToRing(dump, Ones); S = new RNS(*aux);
-        Mk::set(aux, O); aux->RnsToRing(dump, OE);
+        aux = Mk::mk(D); aux->RnsToRing(dump, Ones); S = new RNS(*aux);
+        Mk::set(aux, OD); aux->RnsToRing(dump, OE);
     }
-    else if (hist == "assigncold") { aux = Mk::mk(P); S = new RNS(); *S = *aux; }
-    else if (hist == "assignwarm" || hist == "assignsame") { aux = Mk::mk(P); aux->RnsToRing(dump, Ones); S = Mk::mk(O); S->RnsToRing(dump, OE); *S = *aux; }
-    else if (hist == "setcold") { S = new RNS(); Mk::set(S, P); }
-    else if (hist == "setwarm" || hist == "setsame") { S = Mk::mk(O); S->RnsToRing(dump, OE); Mk::set(S, P); }
+    else if (hist == "assigncold") { aux = Mk::mk(D); S = new RNS(); *S = *aux; }
+    else if (hist == "assignwarm" || hist == "assignsame") { aux = Mk::mk(D); aux->RnsToRing(dump, Ones); S = Mk::mk(OD); S->RnsToRing(dump, OE); *S = *aux; }
+    else if (hist == "setcold") { S = new RNS(); Mk::set(S, D); }
+    else if (hist == "setwarm" || hist == "setsame") { S = Mk::mk(OD); S->RnsToRing(dump, OE); Mk::set(S, D); }
     else if (hist == "setback") {      // primes -> use -> other primes of the same length -> use -> primes again
-        S = Mk::mk(P); S->RnsToRing(dump, Ones); Mk::set(S, O); S->RnsToRing(dump, OE); S->Reciprocals(); Mk::set(S, P);
+        S = Mk::mk(D); S->RnsToRing(dump, Ones); Mk::set(S, OD); S->RnsToRing(dump, OE); S->Reciprocals(); Mk::set(S, D);
     }
     else return "BAD-HIST";
     if (aux && hist != "copy2" && hist != "copymod") { delete aux; aux = 0; }
